@@ -730,7 +730,7 @@ impl Scenario for NodesScenario {
     }
     fn runs(&self, tier: &str) -> u64 {
         if tier == "quick" {
-            60_000
+            200_000
         } else {
             6_000_000
         }
